@@ -190,6 +190,8 @@ def _has_small_const(n) -> bool:
         return cv is not None and any(_small(c) for c in flat(cv))
     if n["op"] == "full":
         return _small(n["p"].get("value"))
+    if n["op"] == "arange":
+        return _small(n["p"].get("start")) or _small(n["p"].get("step"))
     if n["op"] in ("add", "sub", "mul", "truediv", "pow", "arctan2"):
         return any(_small_lit(a) for a in n.get("args", []))
     return False
